@@ -17,6 +17,8 @@ for d in sorted(x for x in glob.glob(os.path.join(root, "seeded", "C*")) if os.p
     for letter in "AB":
         pm = next((p for p in patches if p.get("file") == "patch_%s.diff" % letter), {})
         r = runs.get("patch_%s" % letter, {})
+        if not pm and not r:
+            continue
         hist = r.get("history", [])
         last = hist[-1] if hist else {}
         first = hist[0] if hist else {}
